@@ -163,3 +163,24 @@ example : Spec.verdict (fun a b => a ++ b) (some ⟨[1], 2, [7]⟩) 2 (some ⟨[
   decide
 
 end C09
+
+namespace C09
+open Core
+
+/-- the fourth check of `Update` ("next.Size < prev.Size", the one refusal that would return no checkpoint after
+    one is stored) can never fire: it is shadowed by the two checks before it.  Hence the four refusals that follow a
+    stored checkpoint are exactly oldSizeInvalid, stale, rootMismatch and invalidProof, each with the stored
+    checkpoint, as the property lists them. -/
+theorem C09_smaller_check_unreachable {α : Type} [DecidableEq α] (H : α → α → α) (prev : CP α) (old : Nat) (next : CP α)
+    (proof : List α) : Core.decide H prev old next proof ≠ .smallerNil := by
+  unfold Core.decide
+  by_cases h1 : old > next.size
+  · simp [h1]
+  · by_cases h2 : old ≠ prev.size
+    · simp [h1, h2]
+    · have h3 : ¬ next.size < prev.size := by omega
+      simp only [h1, h2, h3, if_false]
+      repeat' split
+      all_goals simp
+
+end C09
